@@ -2222,6 +2222,10 @@ class ResetIndex(Elemwise):
         if isinstance(parent, Filter) and self._filter_passthrough_available(
             parent, dependents
         ):
+            if self.frame._meta.index.nlevels > 1 and not self.operand("drop"):
+                # The levels became columns, the predicate can't be expressed
+                # in terms of the frame below
+                return
             parents = [
                 p().columns
                 for p in dependents[self._name]
